@@ -8,7 +8,7 @@ from report import Result, Ob, eq_ob, req_ob
 import config_model as CM
 
 KNOWN = {"scatter", "cumsum", "gather", "permidx", "elem"}
-KNOWN_CONTOUR = {"cumsum", "gather", "permidx", "elem", "at", "abs", "searchsorted", "last", "pick", "min", "max", "idx"}
+KNOWN_CONTOUR = {"cumsum", "gather", "permidx", "elem", "at", "abs", "searchsorted", "last", "pick", "min", "max", "idx", "sum"}
 TRUST = "numpy: argsort ascending and stable; a[::-1] / np.flip reverse; cumsum inclusive prefix sums; searchsorted(side='left') first index with c[i] >= v; a[p] gathers, a[p] = v scatters"
 
 
@@ -65,6 +65,9 @@ def source_area_obligations(P):
     obs.append(req_ob("R-DTYPE", site, "the result's storage does not inherit the dtype of g", not (out.dtype or "").startswith("inherit:g"), detail="dtype %s" % out.dtype, key={"clause": "dtype"}))
     ev = [e for e in rets[0].events if e[0] == "dtype"]
     obs.append(req_ob("R-DTYPE", site, "no value derived from f is stored into storage typed by g", not ev, detail="; ".join("%s %s" % (e[1], e[2]) for e in ev[:2]) or None))
+    lay = [e for e in rets[0].events if e[0] == "layout"]
+    obs.append(req_ob("R-ORDER-ONLY", site, "f and g are flattened in index order, so cell k of f and cell k of g are the same cell whatever the memory layout of either", not lay,
+                      detail="; ".join("%s %s" % (e[1], e[2]) for e in lay[:2]) or None, key={"clause": "layout"}))
     shp = out.shape
     obs.append(req_ob("R-ORDER-ONLY", site, "the result has the shape of g", shp is not None and len(shp) == 2 and shp[0].eq(ny) and shp[1].eq(nx), detail=repr(shp)))
     return obs
@@ -117,7 +120,18 @@ def contour_obligations(P):
         # cumulative sum searched: cumsum of the descending-sorted field times the cell area
         obs.append(eq_ob("R-SORTDIR", site, "the search runs on the cumulative sum of the field sorted descending (times the cell area) %s" % tag, carr, alg.fn("cumsum", srt) * cell,
                          "highest-valued cells first", key={"clause": "direction"}))
-        obs.append(eq_ob("R-COUNT", site, "the target is the fraction pct of the total %s" % tag, target, pct * alg.fn("last", alg.fn("cumsum", srt) * cell), "p * sum(f) * cell area", key={"clause": "target"}))
+        spec_target = pct * alg.fn("last", alg.fn("cumsum", srt) * cell)
+        alt_target = pct * alg.fn("sum", flx.val) * cell
+        if isinstance(target, Expr) and not target.eq(spec_target) and (target.eq(alt_target) or target.eq(pct * alg.fn("sum", srt) * cell)):
+            # the total is summed separately from the searched partial sums: equal in exact arithmetic, but in floating point it can
+            # exceed the last partial sum, so for p = 1 the search can return n and the area (k + 1) cells exceeds the grid
+            clamped = (area / cell).simp().eq(alg.fmin(k, ny * nx - ONE) + ONE)
+            obs.append(req_ob("R-COUNT", site, "the total is the last searched partial sum itself, or the cell count is clamped to the grid %s" % tag, clamped,
+                              detail="target %r is summed independently of the searched array (rounding: target can exceed cumsum[-1] at p = 1, then k = n)" % (target,), key={"clause": "target"}))
+        else:
+            obs.append(eq_ob("R-COUNT", site, "the target is the fraction pct of the total %s" % tag, target, spec_target, "p * sum(f) * cell area", key={"clause": "target"}))
+        lay = [e for e in rets[0].events if e[0] == "layout"]
+        obs.append(req_ob("R-COUNT", site, "the field is flattened in index order %s" % tag, not lay, detail="; ".join("%s %s" % (e[1], e[2]) for e in lay[:2]) or None))
         obs.append(req_ob("R-COUNT", site, "the search returns the first position where the cumulative sum reaches the target (side='left') %s" % tag, side == "left", detail="side=%r" % (side,)))
         n = ny * nx
         want_level = alg.fn("pick", srt, alg.fmin(k, n - ONE))
